@@ -645,6 +645,23 @@ def run(ck, facts):
     if nsa < 4:
         ck.bad("R8", "size-align-lets/floor", "only %d `let size/align = layout.size()/align()` bindings found in the JS backend" % nsa)
     struct_outstruct_symmetry(ck, "R9", facts, {"js"})
+    # producer / consumer of the lifetime append-array map: a method whose output does not borrow from a struct argument passes an empty map (`{}`), so every
+    # spread of a map entry in the code that writes the struct (`...appendArrayMap['aAppendArray']`) must tolerate a missing entry -- under js.abi = spec every
+    # struct argument is written through that code, and a bare spread of `undefined` throws before a byte is written
+    spreads, tolerant = 0, 0
+    passes_empty = False
+    for f2 in tool.fn_list:
+        if "hir" not in f2 or not f2["path"].startswith("diplomat_tool::js::") or f2.get("exp"):
+            continue
+        for l_ in C.str_lits(C.fn_body(f2)):
+            for m_ in re.finditer(r"\.\.\.\s*(\(?)\s*appendArrayMap\[[^\]]*\]\s*(\|\|\s*\[\s*\]\s*\))?", l_):
+                spreads += 1
+                tolerant += bool(m_.group(1) and m_.group(2))
+            if re.search(r"_intoFFI\(functionCleanupArena, \{\}", l_) or l_.strip() == "{}":
+                passes_empty = True
+    ck.expect(spreads >= 2 and tolerant == spreads, "R8", "js/appendArrayMap-spreads-tolerate-missing-entry", "%d spreads, all `(.. || [])`" % spreads,
+              "%d of %d spreads of an append-array map entry are bare (`...appendArrayMap[..]`) while methods pass `{}` for struct arguments the output does not borrow from (%s): "
+              "with js.abi = spec the struct conversion throws `appendArrayMap.aAppendArray is not iterable` instead of writing the struct" % (spreads - tolerant, spreads, passes_empty), None)
 
     # ---------------- R7 readers used by the deref generator
     js_deref_rules(ck, "R7", facts)
